@@ -176,6 +176,10 @@ func (pk PublicKey) Verify(sig Signature, m []byte) bool {
 	if len(sig) != SignatureLen {
 		return false
 	}
+	// BIP-340 public keys are exactly 32 bytes; LiftX would silently pad a shorter one.
+	if len(pk) != 32 {
+		return false
+	}
 
 	P, err := curve.Secp256k1{}.LiftX(pk)
 	if err != nil {
